@@ -484,6 +484,7 @@ func checkC09(c *Check) {
 	c09PerPartStatus(c)
 	c09AcceptedListAfterAccept(c, "K12")
 	c09OneKeyForConnTable(c, "K13")
+	c09NoSpellingDependentSkip(c, "K14")
 
 	// ---- K5: a failure of one atomic target is reported for exactly that target's recipients
 	c.Rule("K5", "pipeline per-recipient body path: when an atomic target's Body fails, the error is reported for that target's complete recipient list and for no other target's recipients", 1)
